@@ -109,9 +109,21 @@ def dft_x(prm):
 # ----------------------------------------------------------------------------- templates
 
 def t_plain(s, prm):
+    """Unchanged ops; optionally with a small and a large (> 1000 elements: call_onnx_api strips it) initializer."""
     nodes = [helper.make_node("Relu", ["x"], ["a"]), helper.make_node("Neg", ["a"], ["b"]),
-             helper.make_node("Add", ["b", "x"], ["c"]), helper.make_node("Abs", ["c"], ["y"])]
-    m = _model(nodes, [_vi("x", [2, 3])], [_vi("y", [2, 3])], s)
+             helper.make_node("Add", ["b", "x"], ["c"]), helper.make_node("Abs", ["c"], ["y0"])]
+    inits = []
+    if prm.get("inits"):
+        r = np.random.RandomState(5)
+        inits.append(numpy_helper.from_array(r.uniform(-1, 1, size=[2, 3]).astype(np.float32), "w_small"))
+        inits.append(numpy_helper.from_array(r.uniform(-1, 1, size=[200, 2, 3]).astype(np.float32), "w_big"))
+        nodes += [helper.make_node("Mul", ["y0", "w_small"], ["y1"]), helper.make_node("Add", ["y1", "w_big"], ["y2"]),
+                  helper.make_node("ReduceMax", ["y2"], ["y"], keepdims=0)]
+        out = _vo("y", 0)
+    else:
+        nodes.append(helper.make_node("Identity", ["y0"], ["y"]))
+        out = _vi("y", [2, 3])
+    m = _model(nodes, [_vi("x", [2, 3])], [out], s, inits=inits)
     return m, {"x": ("f", [2, 3])}
 
 
@@ -260,7 +272,7 @@ def t_mix(s, prm):
 
 
 TEMPLATES = {
-    "plain": (t_plain, lambda rng, s: {}),
+    "plain": (t_plain, lambda rng, s: {"inits": rng.choice([False, True])}),
     "dft": (t_dft, draw_dft),
     "gs": (t_gs, draw_gs),
     "gn": (t_gn, draw_gn),
